@@ -91,7 +91,7 @@ func refetched(c *fakeCAS, mat *materialized) bool {
 
 func TestC17InputRootModel(t *testing.T) {
 	rec := simkit.NewRecorder(t, "C17", "inputroot-model",
-		"rapid: REv2 Directory DAG (shared templates reachable via several paths and under several names, height<=4, empty directories, exec bits, generated contents, symlinks) stored in a hand-written fake CAS; real BlobAccessDirectoryFetcher + CachingDirectoryFetcher (1-3 entries, LRU/FIFO) + CASInitialContentsFetcher + BlobAccess/StatelessHandleAllocating CAS file factory + InMemoryPrepopulatedDirectory (FUSE or NFS handle allocator) + virtualBuildDirectory.MergeDirectoryContents into 1-2 action directories; generated interleaving of lookups/readdirs (chunked, both attribute masks)/reads/readlinks/UploadFile through the virtual.Directory+Leaf API and the BuildDirectory API with local create/write/mkdir/symlink/remove/RemoveAll/rename/hard-link and refused mutation attempts. Oracle: every answer equals a plain mutable copy of the expanded DAG plus the local edits (names, kinds, exec bits, sizes, symlink targets, file bytes), after every step for the visited part and at the end for the whole tree. NON-TRIVIAL: a shared template expanded in >=2 places AND some directory still unvisited when the steps end (partial exploration) AND >=1 successful local modification; distinct by script hash")
+		"rapid: REv2 Directory DAG (shared templates reachable via several paths and under several names, height<=4, empty directories, exec bits, generated contents, symlinks with relative or absolute, canonical or non-canonical targets up to 700 bytes, compared after a normal form that preserves POSIX resolution) stored in a hand-written fake CAS; real BlobAccessDirectoryFetcher + CachingDirectoryFetcher (1-3 entries, LRU/FIFO) + CASInitialContentsFetcher + BlobAccess/StatelessHandleAllocating CAS file factory + InMemoryPrepopulatedDirectory (FUSE or NFS handle allocator) + virtualBuildDirectory.MergeDirectoryContents into 1-2 action directories; generated interleaving of lookups/readdirs (chunked, both attribute masks)/reads/readlinks/UploadFile through the virtual.Directory+Leaf API and the BuildDirectory API with local create/write/mkdir/symlink/remove/RemoveAll/rename/hard-link and refused mutation attempts. Oracle: every answer equals a plain mutable copy of the expanded DAG plus the local edits (names, kinds, exec bits, sizes, symlink targets, file bytes), after every step for the visited part and at the end for the whole tree. NON-TRIVIAL: a shared template expanded in >=2 places AND some directory still unvisited when the steps end (partial exploration) AND >=1 successful local modification; distinct by script hash")
 	rapid.Check(t, func(rt *rapid.T) {
 		cfg := drawWorldConfig(rt)
 		spec := drawDAG(rt)
